@@ -55,6 +55,10 @@ def corpus(tier):
         c.append(("gensalt_st-first/" + (m or "NULL"), [],
                   rt.gensalt_line("st", gen.TAG[m] if m else None, 0, facts.rbytes_pattern("rnd", 32), 32, 192), True))
     c.append(("static-first/y-small", [], rt.crypt_line("crypt", 0, ph, y_setting(b"$y$", 8, 8)), True))
+    # requests that fail anyway: the token returned under a fault must still differ from the setting
+    for t in (b"*0", b"*1", b"*0abc"):
+        c.append(("static-first/token-" + t.decode(), [], rt.crypt_line("crypt", 0, ph, t), True))
+        c.append(("ra-null/token-" + t.decode(), ["raobj 2 -1 0"], rt.crypt_line("crypt_ra", 2, ph, t)))
     if tier == "thorough":
         big += [("y-worm", y_setting(b"$y$", 8, 8)[:3] + b"/" + y_setting(b"$y$", 8, 8)[4:]),      # flavour '/'
                 ("y-classic", y_setting(b"$y$", 8, 8)[:3] + b"." + y_setting(b"$y$", 8, 8)[4:]),   # flavour '.'
@@ -212,6 +216,9 @@ def do_case(item):
             o = r1.get("o")
             if o not in (None, "-", "2a30", "2a31", ".") and not is_gs:
                 viol("output-not-token", "output field holds %s" % o)
+            if not is_gs and o in ("2a30", "2a31") and call.split()[4].startswith(o):
+                viol("token-equals-setting", "the failure token %s is a leading part of the setting: "
+                                             "strcmp(crypt(p, stored), stored) could succeed" % o)
         if "crypt_ra" in call and not success and any(k == "R" for k, _, _ in failed):
             had_block = any(l.startswith("raobj") and int(l.split()[2]) >= 0 for l in setup0)
             if had_block and r1.get("d") != "1":
@@ -226,9 +233,14 @@ def do_case(item):
         # leaks: live library mappings must be none; heap blocks only *data
         if int(r1.get("maps", "0")) > 0:
             viol("mapping-leak", "%s library mappings still live after the call" % r1.get("maps"))
-        lim = 1 if "crypt_ra" in call else 0
+        # crypt_ra's block belongs to the caller; the static entry points may keep one state object of their own
+        # (kept and reused is not lost) - what counts there is growth from call to call
+        static_entry = call.split()[1] in ("crypt", "st") or (is_gs and call.split()[1] == "st")
+        lim = 1 if ("crypt_ra" in call or static_entry) else 0
         if int(r1.get("heap", "0")) > lim:
             viol("heap-leak", "%s library heap blocks live after the call" % r1.get("heap"))
+        if static_entry and int(r2.get("heap", "0")) > max(int(r1.get("heap", "0")), 1):
+            viol("heap-leak", "library heap blocks grow from call to call: %s then %s" % (r1.get("heap"), r2.get("heap")))
         # the next, un-faulted call on the same objects behaves normally
         if not is_gs_os(call) and (r2.get("r"), r2.get("o")) != h0:
             viol("next-call-abnormal", "un-faulted call after the fault gives %s/%s, expected %s/%s" % (
